@@ -266,6 +266,14 @@ func runC10(r *fw.Run) {
 			r.Done(0)
 			r.Count("huge_unterminated_frames", 2)
 		}
+		// clients that pause inside a frame
+		r.Journal(0, map[string]string{"what": "slow writers"})
+		if r.Thorough {
+			c10SlowWriters(r, g, cf.tr, []time.Duration{300 * time.Millisecond, 1100 * time.Millisecond, 2500 * time.Millisecond, 6 * time.Second, 12 * time.Second})
+		} else {
+			c10SlowWriters(r, g, cf.tr, []time.Duration{300 * time.Millisecond, 1100 * time.Millisecond, 2500 * time.Millisecond})
+		}
+		r.Done(0)
 		// connections the service itself ends while the client keeps its socket open
 		r.Journal(0, map[string]string{"what": "held open after the service ended the connection"})
 		c10HeldOpen(r, g, cf.tr)
@@ -341,7 +349,7 @@ func replayC10(r *fw.Run, raw json.RawMessage) {
 func init() {
 	fw.Register(&fw.Engine{
 		ID: "C10", Level: "fault_enumeration",
-		Rule: "streams = valid call sequences (C01 generator), frame-level mutants (bit flips, deleted/inserted bytes, deleted and inserted NULs, structural bytes, wrong-shape JSON spliced in), wrong-shape frames (arrays, numbers, strings, booleans, null, objects with non-string method or non-boolean flags, case-variant and duplicate keys, trailing garbage, BOM, invalid UTF-8), shuffled and duplicated frames, random bytes, empty frames, a valid prefix followed by a tail without NUL. A case = (stream, abort offset k, abort style): EVERY k in 0..len(stream), once as 'write S[:k], half-close, read to EOF' (exact oracle: replies and handler log equal the sequential model applied to the complete frames of S[:k]; an invalid or wrong-shape frame ends the connection without reply or dispatch; null is answered like a call without method; the incomplete tail is never dispatched) and once as 'write S[:k] and close at once' (prefix oracle: dispatches are a prefix of the model's, each at most once). Every round of 48 aborts shares the service with a well-behaved connection running its own C01 script under the exact oracle. Plus aborts during multi-MiB replies/requests and 8 MiB frames without NUL. After each configuration: active-connection counter back to 0, Shutdown makes the serving call return nil; finally a service with a 300 ms idle timeout must stop with ServiceTimeoutError after hostile clients have gone. non-trivial = stream longer than one byte; distinct by (stream hash, offset, style). Also: every wrong-shape frame at least once between two valid calls; complete well-formed calls of 65 000 .. 1 MiB (thorough 3 MiB) judged exactly; rounds with a client that stalls (neither reads nor closes) in the middle of a 4 MiB reply; long-lived connections: 40 x 1 MiB calls and 40 x 1 MiB replies (thorough 4200 each: beyond 2^32 bytes per direction), 100 x 256 KiB over TCP, 20 000 (thorough 400 000) small calls, each answered exactly, then GetInfo; connections that the service ends (non-call frames, failing handler) while the client neither closes nor half-closes: released all the same.",
+		Rule: "streams = valid call sequences (C01 generator), frame-level mutants (bit flips, deleted/inserted bytes, deleted and inserted NULs, structural bytes, wrong-shape JSON spliced in), wrong-shape frames (arrays, numbers, strings, booleans, null, objects with non-string method or non-boolean flags, case-variant and duplicate keys, trailing garbage, BOM, invalid UTF-8), shuffled and duplicated frames, random bytes, empty frames, a valid prefix followed by a tail without NUL. A case = (stream, abort offset k, abort style): EVERY k in 0..len(stream), once as 'write S[:k], half-close, read to EOF' (exact oracle: replies and handler log equal the sequential model applied to the complete frames of S[:k]; an invalid or wrong-shape frame ends the connection without reply or dispatch; null is answered like a call without method; the incomplete tail is never dispatched) and once as 'write S[:k] and close at once' (prefix oracle: dispatches are a prefix of the model's, each at most once). Every round of 48 aborts shares the service with a well-behaved connection running its own C01 script under the exact oracle. Plus aborts during multi-MiB replies/requests and 8 MiB frames without NUL. After each configuration: active-connection counter back to 0, Shutdown makes the serving call return nil; finally a service with a 300 ms idle timeout must stop with ServiceTimeoutError after hostile clients have gone. non-trivial = stream longer than one byte; distinct by (stream hash, offset, style). Also: every wrong-shape frame at least once between two valid calls; complete well-formed calls of 65 000 .. 1 MiB (thorough 3 MiB) judged exactly; rounds with a client that stalls (neither reads nor closes) in the middle of a 4 MiB reply; long-lived connections: 40 x 1 MiB calls and 40 x 1 MiB replies (thorough 4200 each: beyond 2^32 bytes per direction), 100 x 256 KiB over TCP, 20 000 (thorough 400 000) small calls, each answered exactly, then GetInfo; connections that the service ends (non-call frames, failing handler) while the client neither closes nor half-closes: released all the same; clients that pause 0.3 .. 2.5 s (thorough 12 s) in the middle of a frame are answered.",
 		Assumptions: []string{"frames with case-variant or duplicate known keys are judged for crash/dispatch-order/probe only (their meaning depends on decoder details the statement does not fix)", "unix-domain transports (filesystem and abstract)"},
 		Run:         runC10, Replay: replayC10, CrashIsViolation: true, MinEvals: 1000,
 		QuickTimeout: 15 * time.Minute, ThoroughTimeout: 60 * time.Minute,
